@@ -161,6 +161,7 @@ func Execute(t *testing.T, spec *RunSpec) *Result {
 			task.After = rs.After
 			task.Origin = "client"
 			task.Req = rs
+			task.Srv = rs.Server
 			task.EntryKind = rs.Kind
 			if rs.Kind == "handler" || rs.Kind == "send" {
 				task.authOK, task.blockOK = true, true
